@@ -222,7 +222,7 @@ pub fn run_scheduled(rec: &mut Rec, run: u64, cfg: &RunCfg, rng: &mut StdRng, me
                 // it: only inspect arrays and functions that exist, so the inspection assigns nothing
                 let snap = abasic_core::verif::snapshot(&s.interp);
                 let exists = |name: &str| snap.arrays.iter().any(|a| a.name == name) || snap.functions.iter().any(|f| f.name == name);
-                let needed: Vec<&str> = ["P(", "Q(", "R$(", "FNA(", "FNB("].iter().filter(|n| ins.contains(**n)).map(|n| n.trim_end_matches('(')).collect();
+                let needed: Vec<&str> = ["P(", "Q(", "R$(", "FNA(", "FNB(", "FNE("].iter().filter(|n| ins.contains(**n)).map(|n| n.trim_end_matches('(')).collect();
                 if !needed.iter().all(|n| exists(n)) {
                     continue;
                 }
@@ -286,6 +286,7 @@ fn gen_replies(rng: &mut StdRng, n: usize) -> Vec<String> {
 const INSPECTIONS: &[&str] = &[
     "PRINT A;B;C", "PRINT S$;T$", "PRINT P(1);Q(1,1)", "PRINT 1/0", "PRINT \"x\"+1", "LIST", "PRINT FNA(\"x\")",
     "PRINT FNB(1/0)", "PRINT R$(99)", "PRINT I;J", "?", "PRINT (", "REM just looking", "NEXT Q9", "GOTO", "X9 = ",
+    "PRINT FNE(0)", "PRINT FNE(1);FNE(0)", "PRINT FNE(FNE(0))",
 ];
 
 /// C07: (program, schedule of breaks + inspections) vs (program, no breaks).
